@@ -88,6 +88,8 @@ T = {
  "C24-r2m2": ("C24", "__Directive.args ignores includeDeprecated and always drops deprecated arguments", "a directive definition with an argument marked @deprecated", ""),
  "C26-r2m1": ("C26", "Int result coercion uses a half-open range that excludes i32::MAX", "a resolver returning exactly 2147483647", ""),
  "C26-r2m2": ("C26", "collect_fields returns (instead of continuing) at an already visited fragment spread", "the same fragment reached twice in one selection set with more selections after the second spread", ""),
+ "C17-r2m1": ("C17", "same_output_type_shape: `is_composite(a) || is_composite(b)` instead of `&&`", "same response name under two non-overlapping object type conditions, one a leaf and the other composite", ""),
+ "C17-r2m2": ("C17", "is_variable_usage_allowed_at step 3.d checks assignability in the wrong direction", "nullable list variable with a default in a non-null list position whose item nullability differs", ""),
  "C33-m2": ("C33", "collect_fields: a fragment spread's fields replace nothing but are not merged into an already collected key", "same composite response key twice, the later occurrence from a named fragment with an extra sub-field", ""),
 }
 
